@@ -6,7 +6,8 @@
 From Coq Require Import NArith Lia.
 Require Import Rapid.Model.Base Rapid.Model.Minimize.
 Require Import Rapid.Generated.Consts.
-Require Import Rapid.Proofs.MinimizeProofs.
+Require Import Rapid.Model.Syntax Rapid.Model.Monad Rapid.Model.Prim.
+Require Import Rapid.Proofs.MinimizeProofs Rapid.Proofs.MinimizeMono Rapid.Proofs.Reach Rapid.Proofs.BiasMono.
 Local Open Scope N_scope.
 
 (* `small` as read from shrink.go by the translator *)
@@ -26,6 +27,42 @@ Theorem C12_minimize_sound :
     minimize cond u <= u /\ (minimize cond u = u \/ cond (minimize cond u) = true).
 Proof. exact minimize_sound. Qed.
 Print Assumptions C12_minimize_sound.
+
+(* every monotone condition (not only x >= t), every 64-bit start value that satisfies it: the result is the
+   least satisfying value *)
+Theorem C12_minimize_least :
+  forall (cond : N -> bool) (u : N),
+    u < 2 ^ 64 -> cond u = true ->
+    (forall x y, x <= y -> y <= u -> cond x = true -> cond y = true) ->
+    cond (minimize cond u) = true /\ forall x, x < minimize cond u -> cond x = false.
+Proof. intros cond u. exact (minimize_least cond u small_is_5). Qed.
+Print Assumptions C12_minimize_least.
+
+(* "value encodings are monotone in their blocks", for the full-range unsigned kinds: dec64 n w is what
+   genUintNBiased returns on the two blocks [k; w] when the bias word k selects n bits ... *)
+Theorem C12_blocks_decode :
+  forall geom k w rest s,
+    k < 2 ^ 53 -> src s = SBuf (k :: w :: rest) ->
+    exists fl fr, steps (genUintNBiased geom 1 full) s (dec64 (geom 64%nat k) w, fl, fr) (with_src s (SBuf rest)).
+Proof. exact dec64_is_run. Qed.
+Print Assumptions C12_blocks_decode.
+(* ... it is monotone in the bias block, so under "fails iff value >= t" minimizing that block ends on the
+   least bias word that still fails (for every geom oracle that is monotone in k, as the regenerated table is:
+   Reach.geom_of_mono_tab) ... *)
+Theorem C12_bias_block_minimized_exactly :
+  forall (geom : nat -> N -> N) (t k w : N),
+    (forall a b, a <= b -> geom 64%nat a <= geom 64%nat b) ->
+    k < 2 ^ 64 -> t <= dec64 (geom 64%nat k) w ->
+    let k0 := minimize (fun k' => N.leb t (dec64 (geom 64%nat k') w)) k in
+    t <= dec64 (geom 64%nat k0) w /\ forall k', k' < k0 -> dec64 (geom 64%nat k') w < t.
+Proof. exact bias_block_minimized_exactly. Qed.
+Print Assumptions C12_bias_block_minimized_exactly.
+(* ... and minimizing the value block (a word below 2^n, as the PRNG stream records it) ends exactly on t *)
+Theorem C12_value_block_minimized_exactly :
+  forall n t w : N, n <= 64 -> w < 2 ^ n -> t <= w ->
+    minimize (fun w' => N.leb t (dec64 n w')) w = t.
+Proof. exact value_block_minimized_exactly. Qed.
+Print Assumptions C12_value_block_minimized_exactly.
 
 (* non-vacuity: thresholds at the top of the type and next to a power of two *)
 Example C12_top : minimize (fun x => N.leb (2 ^ 64 - 2) x) (2 ^ 64 - 1) = 2 ^ 64 - 2.
